@@ -165,15 +165,34 @@ def check(chk: Check) -> None:
         chk.require(ok, R5, key, where, det)
 
     # --------------------------------------------------------------------- R6
-    q = 'smartquery.functions._check_array_size'
-    if q in F.functions:
-        paths = SymExec(F, F.func(q)).run()
-        rs = [p for p in paths if p.outcome[0] == 'raise']
-        bad = [p for p in rs if not common.is_parser_error(F, common.raised_class(F, p.outcome[1]))]
-        chk.require(rs and not bad, R6, q, F.func(q).where, 'the size-cap guard raises %s' % show(bad[0].outcome[1]) if bad else
-                    ('raises ParserError' if rs else 'the guard never raises'))
-    else:
-        raise AnalysisError('anchor vanished: %s' % q)
+    # the size cap: wherever a table function compares len(<argument>) with a constant and raises right away, it raises ParserError
+    tab_ = functab.table(F)
+    n_cap = 0
+    bad_cap = []
+    for key_, ent_ in tab_.items():
+        fi_ = ent_.funcinfo(F)
+        if fi_ is None:
+            continue
+        for p in SymExec(F, fi_).run():
+            if p.outcome[0] != 'raise' or not p.assumptions:
+                continue
+            c_, v_, _ = p.assumptions[-1]
+            def is_len_test(c):
+                return isinstance(c, tuple) and c[:1] == ('cmp',) and c[1] in ('>=', '>', '<', '<=') and \
+                    any(isinstance(x, tuple) and x[:2] == ('pcall', 'len') for x in c[2:4]) and \
+                    any(is_const(x) and isinstance(x[1], int) and x[1] >= 100 for x in c[2:4])
+            core_ = c_
+            while isinstance(core_, tuple) and core_[:1] == ('not',):
+                core_ = core_[1]
+            if not is_len_test(core_):
+                continue
+            n_cap += 1
+            if not common.is_parser_error(F, common.raised_class(F, p.outcome[1])):
+                bad_cap.append('%s raises %s when `%s` is %s' % (ent_.label, show(p.outcome[1]), show(c_), v_))
+    if n_cap == 0:
+        bad_cap.append('no table function raises when len(<argument>) reaches the cap: exceeding the size cap is not reported by an exception at all')
+    chk.require(not bad_cap, R6, 'size-cap guards', 'smartquery/functions.py', '; '.join(sorted(set(bad_cap))[:3]) or
+                '%d over-cap path(s) raise ParserError' % n_cap)
     rp = om.eval_paths(F, om.ROOT)
     rs = [p for p in rp if p.outcome[0] == 'raise']
     bad = [p for p in rs if not common.is_parser_error(F, common.raised_class(F, p.outcome[1]))]
